@@ -142,11 +142,21 @@ def run(chk):
          'applies': 3, 'seed': rng.randint(0, 99)} for _ in range(40 if chk.tier == 'thorough' else 8)]
   jm += [{'kind': 'class', 'depth': rng.randint(1, 2), 'inside': rng.randint(1, 2), 'own': rng.random() < 0.5, 'seq': [], 'applies': 3, 'seed': rng.randint(0, 99)}
          for _ in range(12 if chk.tier == 'thorough' else 3)]
+  jm += [{'kind': 'helper', 'depth': rng.randint(1, 2), 'inside': rng.randint(1, 2), 'own': False, 'seq': [], 'applies': 3, 'seed': 0} for _ in range(6 if chk.tier == 'thorough' else 2)]
   jr = common.run_impl('impl_c05.py', {'jit_methods': jm}, timeout=1500)['jit_methods']
   for c, r in zip(jm, jr):
-    chk.count({'jit_method': c}, 'jit' in c['seq'])
+    chk.count({'jit_method': c}, 'jit' in c['seq'] or c.get('kind') == 'helper')
     if 'err' in r:
       chk.violation('oracle', 'a module with an nn.jit-ed method and setup sub-modules could not be applied: %s' % r['err'], {'case': c, 'tb': r.get('tb')})
+    elif c.get('kind') == 'helper':
+      h = r['ok']
+      for name, o in h['helper'].items():
+        if o['names'] != h['plain_names']:
+          chk.violation('oracle', 'init of a module whose nn.%s-ed helper method creates auto-named sub-modules gives another variable tree than the undecorated module (a sub-module is '
+                        'silently shared or renamed)' % name, {'case': c, 'lifted_names': o['names'], 'plain_names': h['plain_names']})
+        elif any(y != h['want'] for y in o['outs']):
+          chk.violation('oracle', 'apply of a module with an nn.%s-ed helper method that creates sub-modules differs from the undecorated module on the same variables (first apply = '
+                        'trace, later applies = cache hits)' % name, {'case': c, 'outputs': o['outs'], 'expected': h['want']})
     else:
       # inside nn.jit the keys are another deterministic function of the call site (the stream is materialised at the boundary); the draws made in plain code must be those of
       # the undecorated module (the counters advance as if the body had run), and every apply -- the one that traces and the cache hits -- must repeat the first
